@@ -241,6 +241,19 @@ func (g *Gen) metaOverrideProgram() *GProgram {
 				Src: srcAcct(g.r.Pick([]string{"a", "world"})), Dst: dstAcct("c")})
 		}
 	}
+	if g.r.Chance(1, 3) {
+		// a value written, then overwritten by a value that "looks like nothing": the empty string, zero
+		acc, key := g.r.Pick([]string{"a", "b"}), g.r.Pick([]string{"k", "key"})
+		empty := []*GExpr{{Kind: XString, S: ""}, {Kind: XNumber, N: bi(0)}, lit("USD", bi(0)), {Kind: XString, S: " "}}[g.r.Weighted(55, 15, 15, 15)]
+		first := &GStmt{Kind: StCall, Call: &GFnCall{Name: "set_account_meta", Args: []*GExpr{acct(acc), {Kind: XString, S: key}, {Kind: XString, S: "blocked"}}}}
+		last := &GStmt{Kind: StCall, Call: &GFnCall{Name: "set_account_meta", Args: []*GExpr{acct(acc), {Kind: XString, S: key}, empty}}}
+		if g.r.Chance(1, 3) {
+			first = &GStmt{Kind: StCall, Call: &GFnCall{Name: "set_tx_meta", Args: []*GExpr{{Kind: XString, S: key}, {Kind: XString, S: "blocked"}}}}
+			last = &GStmt{Kind: StCall, Call: &GFnCall{Name: "set_tx_meta", Args: []*GExpr{{Kind: XString, S: key}, empty}}}
+		}
+		g.prog.Stmts = append([]*GStmt{first}, g.prog.Stmts...)
+		g.prog.Stmts = append(g.prog.Stmts, last)
+	}
 	return g.prog
 }
 
@@ -361,6 +374,33 @@ func (g *Gen) twoAssetsProgram() *GProgram {
 	}
 	g.bal["a"] = map[string]*big.Int{x: bi(int64(5 + g.r.Intn(30))), y: bi(int64(5 + g.r.Intn(30)))}
 	g.bal["b"] = map[string]*big.Int{x: bi(int64(g.r.Intn(10))), y: bi(int64(g.r.Intn(10)))}
+	if g.r.Chance(1, 4) {
+		// the store has nothing to say about one asset of @a (absent, or an explicit zero), and @a owes the other
+		// one: both are asked for in one query; the debt counts against the grant whatever the answer for the first
+		if g.r.Chance(1, 2) {
+			x, y = "PTS", "USD" // (so that a sparse store writes its "nothing" as a nil amount)
+		}
+		debt, grant := int64(5+g.r.Intn(40)), int64(20+g.r.Intn(60))
+		g.bal["a"] = map[string]*big.Int{y: bi(-debt)}
+		if g.r.Chance(1, 3) {
+			g.bal["a"][x] = bi(0)
+		}
+		zero := &GStmt{Kind: StSend, Sent: &GSent{E: lit(x, bi(0))}, Src: srcAcct("a"), Dst: dstAcct("c")}
+		if g.r.Chance(1, 3) {
+			zero = &GStmt{Kind: StSave, Sent: &GSent{E: lit(x, bi(0))}, Acct: acct("a")}
+		}
+		draw := &GStmt{Kind: StSend, Sent: &GSent{E: lit(y, bi(grant+int64(g.r.Intn(20))))},
+			Src: &GSource{Kind: SrcInorder, Subs: []*GSource{{Kind: SrcOverdraft, E: acct("a"), Bounded: lit(y, bi(grant))}, srcAcct("world")}}, Dst: dstAcct("c")}
+		if g.r.Chance(1, 4) {
+			draw = &GStmt{Kind: StSend, Sent: &GSent{All: true, E: &GExpr{Kind: XAsset, S: y}}, Src: &GSource{Kind: SrcOverdraft, E: acct("a"), Bounded: lit(y, bi(grant))}, Dst: dstAcct("c")}
+		}
+		if g.r.Chance(3, 4) {
+			g.prog.Stmts = append(g.prog.Stmts, zero, draw)
+		} else {
+			g.prog.Stmts = append(g.prog.Stmts, draw, zero)
+		}
+		return g.prog
+	}
 	switch g.r.Intn(4) {
 	case 0:
 		delete(g.bal["a"], x) // the store has nothing to say about the first asset
@@ -1259,5 +1299,38 @@ func (g *Gen) zeroTwinsProgram() *GProgram {
 		sent = &GSent{All: true, E: &GExpr{Kind: XAsset, S: asset}}
 	}
 	g.prog.Stmts = append(g.prog.Stmts, &GStmt{Kind: StSend, Sent: sent, Src: &GSource{Kind: SrcInorder, Subs: subs}, Dst: dstAcct("shop")})
+	return g.prog
+}
+
+// keyCollision: account names and asset names chosen so that gluing them together without a separator
+// gives the same text for different pairs (`x`+`AB` = `xA`+`B`): every (account, asset) pair is its own cell.
+func (g *Gen) keyCollisionProgram() *GProgram {
+	g.asset = "AB"
+	g.bal["x"] = map[string]*big.Int{"AB": bi(int64(5 + g.r.Intn(40))), "B": bi(int64(g.r.Intn(9)))}
+	g.bal["xA"] = map[string]*big.Int{"B": bi(int64(5 + g.r.Intn(40))), "AB": bi(int64(g.r.Intn(9)))}
+	g.bal["x:A"] = map[string]*big.Int{"B": bi(int64(g.r.Intn(20)))}
+	send := func(src, asset string) {
+		n := bi(int64(1 + g.r.Intn(30)))
+		var s *GSource = srcAcct(src)
+		if g.r.Chance(1, 2) {
+			s = &GSource{Kind: SrcInorder, Subs: []*GSource{srcAcct(src), srcAcct("world")}}
+		}
+		sent := &GSent{E: lit(asset, n)}
+		if g.r.Chance(1, 4) {
+			sent = &GSent{All: true, E: &GExpr{Kind: XAsset, S: asset}}
+			s = srcAcct(src)
+		}
+		g.prog.Stmts = append(g.prog.Stmts, &GStmt{Kind: StSend, Sent: sent, Src: s, Dst: dstAcct("c")})
+	}
+	if g.r.Chance(1, 2) {
+		send("x", "AB")
+		send("xA", "B")
+	} else {
+		send("xA", "B")
+		send("x", "AB")
+	}
+	if g.r.Chance(1, 3) {
+		send("x:A", "B")
+	}
 	return g.prog
 }
